@@ -442,14 +442,23 @@ func c15Run(in c15In) (out c15Out) {
 			// wake a Read that is blocked, then keep the consumer outside Read: whatever the writer does until
 			// "resume" is pending all at once when Read is called again (the select order is then arbitrary)
 			b, _ := hex.DecodeString(op.Data)
-			R.mu.Lock()
-			R.log = append(R.log, c15Ent{0, op.Data})
-			if in.Reopen || removes == 0 { // plain follow: nothing written after the removal has to be delivered
-				R.written += len(b)
+			if len(b) > 0 {
+				R.mu.Lock()
+				R.log = append(R.log, c15Ent{0, op.Data})
+				if in.Reopen || removes == 0 { // plain follow: nothing written after the removal has to be delivered
+					R.written += len(b)
+				}
+				R.mu.Unlock()
 			}
-			R.mu.Unlock()
 			atomic.StoreInt32(&pauseReq, 1)
-			err = appendFile(b)
+			if len(b) > 0 {
+				err = appendFile(b)
+			}
+			if paused { // already outside Read: let the consumer read what has piled up, it parks again once drained -
+				// the notifications of everything it has just read are still waiting
+				paused = false
+				resumeCh <- struct{}{}
+			}
 			if err == nil {
 				select {
 				case <-parkedCh:
@@ -794,7 +803,7 @@ func (g *gen) mk(class string, poll, reopen, tail bool, budget int) c15In {
 		if class == "batcher-big" {
 			n = 0
 		}
-		if class == "rotate" || class == "double-rotate" || class == "paused-rotate" {
+		if class == "rotate" || class == "double-rotate" || class == "paused-rotate" || class == "lagging-burst" {
 			n = r.Range(2, 12)
 		}
 		s := g.data(n)
@@ -908,6 +917,39 @@ func (g *gen) mk(class string, poll, reopen, tail bool, budget int) c15In {
 			add(c15Op{Op: "resume", WaitUs: Pick(r, []int{300, 1000, 2000, 4000})}) // time for the watcher goroutine to forward everything
 			app(r.Range(1, 6), true)
 		}
+	case "lagging-burst": // burst-then-remove behind a lagging consumer: 20-40 separate small appends while the consumer is
+		// outside Read (one notification each piles up), ONE big Read delivers them all, the consumer stays outside
+		// Read, the file is removed (re-open: re-created and appended to), then the consumer resumes: the delete
+		// (create / write) notification must not be lost behind the stale write notifications
+		in.Buf = 4096
+		if r.Chance(1, 2) {
+			app(r.Range(1, 6), false)
+		}
+		add(c15Op{Op: "pause", Data: g.data(r.Range(1, 3)), WaitUs: g.wait()})
+		size += len(in.Script[len(in.Script)-1].Data) / 2
+		for k := r.Range(20, 40); k > 0; k-- {
+			n := r.Range(1, 9)
+			add(c15Op{Op: "append", Data: g.data(n), WaitUs: Pick(r, []int{200, 300, 500})})
+			size += n
+		}
+		add(c15Op{Op: "pause", WaitUs: Pick(r, []int{300, 1000})}) // read the burst in one go, then stay outside Read
+		prev := size
+		add(c15Op{Op: "remove", WaitUs: Pick(r, []int{0, 50, 300})})
+		if !reopen {
+			g.recreate(&in)
+			add(c15Op{Op: "resume", WaitUs: Pick(r, []int{200, 1000, 3000})})
+			break
+		}
+		add(c15Op{Op: "create", WaitUs: Pick(r, []int{0, 0, 50})})
+		size = 0
+		first := r.Range(1, 6)
+		if poll && first >= prev {
+			first = prev - 1
+		}
+		add(c15Op{Op: "append", Data: g.data(first), WaitUs: Pick(r, []int{0, 0, 50})})
+		size += first
+		add(c15Op{Op: "resume", WaitUs: Pick(r, []int{300, 1000, 2000})})
+		app(r.Range(1, 6), true)
 	case "rotate": // remove after drain, re-create, continue; several times
 		left := budget
 		for left > 3 {
@@ -973,6 +1015,7 @@ func c15Plan(r *Rng, n int, notify bool) []c15In {
 		{"paused-rotate", false, true}, {"paused-rotate", false, true}, {"paused-rotate", false, true},
 		{"paused-rotate", true, true}, {"paused-rotate", false, false},
 		{"batcher-burst", false, false}, {"paused-rotate", true, false}, {"remove-at-end", false, false},
+		{"lagging-burst", false, false}, {"lagging-burst", false, true}, {"lagging-burst", true, false}, {"lagging-burst", true, true},
 	}
 	formOff := r.Intn(len(pathForms))
 	for i := 0; len(ins) < n; i++ {
@@ -1066,6 +1109,7 @@ func main() {
 			"plain follow: after the removal the path is re-created at once or after 1..50 ms, empty or with content (the stream has to end, nothing of the new file is delivered; notify and poll); " +
 			"batcher-burst: TailFilesToChan with batch size 64, [1-3 lines, 300-400 ms, burst of 2-6 lines] x 2-3, the consumer holds every batch and re-reads all of them at the end; " +
 			"batcher-big (the last two cases of every run, notify and poll): TailFilesToChan with batch size 64, 2149 numbered 64-byte records appended in three large writes + one, so that the bytes read end exactly at the end of the scanner's 128 KiB buffer on a record boundary, the consumer holds every batch and re-reads all of them at the end; for Coq both the written and the delivered stream of these two cases are recoded record-wise (64-byte record k -> ff + 3 bytes, anything else unchanged); " +
+			"lagging-burst: 20-40 separate small appends 200-500 us apart while the consumer is outside Read, one Read with a 4096-byte buffer delivers them all, the consumer stays outside Read while the file is removed (re-open: re-created and appended to) and then resumes - notify plain / re-open, poll as control; " +
 			"double rotation remove/create/remove/create without pauses (an empty middle file: with notify re-open the domain of finding C15-notify-stale-delete); " +
 			"paused consumer: the consumer leaves Read after draining, the writer removes, re-creates and appends, the consumer resumes after 0.3..4 ms so that delete, create and write notifications are pending together and the select serves them in arbitrary order, 4 rounds per case) x {notify, poll} x {re-open, plain} x {tail, from start}, read buffer in {1,2,3,7,64,4096}. " +
 			"distinct = distinct (flags, initial content, script with timing); non-trivial = at least two appends or a removal. " +
